@@ -546,6 +546,8 @@ pub enum En {
     D(#[serialize(skip)] u64),
     E(Box<Option<u128>>),
 }
+include!("../wide_enum.rs");
+
 impl Uni for En {
     fn ty() -> String { "(TEnum TagUsize [[]; [TU8; TStr]; [TSInt 32; TSkip (VN 0); TSeq (TUInt 16)]; [TSkip (VN 0)]; [TEnum TagBool [[];[TUInt 128]]]])".into() }
     fn gen_(r: &mut Rng, d: u32) -> Self {
@@ -787,7 +789,7 @@ fn main() {
         BTreeMap<u8, String>, BTreeMap<String, Vec<u16>>, HashMap<u32, i32>, HashMap<String, Option<u8>>, dashmap::DashMap<u8, u8>,
         (u8,), (u8, i16), (String, u32, bool), (u8, (i8, (u16, Vec<u8>))), (i128, u128, char, f64, ()),
         (u8, u16, u32, u64, u128, usize, i8), (u8, i8, u16, i16, u32, i32, u64, i64, bool, char, String, ()),
-        Named, TupleS, UnitS, Gen<u8, String>, Gen<Vec<i32>, Option<u16>>, En, GenEn<u64>, GenEn<En>, Vec<Named>, Option<En>,
+        Wide, Vec<(Option<Wide>, u16)>, Named, TupleS, UnitS, Gen<u8, String>, Gen<Vec<i32>, Option<u16>>, En, GenEn<u64>, GenEn<En>, Vec<Named>, Option<En>,
         BTreeMap<u16, Named>, BTreeMap<i8, En>, Vec<(Named, En)>,
         Interned<String>, Interned<str>, Interned<[u32]>, Interned<Leaf>, Vec<Interned<String>>, Vec<Interned<Leaf>>,
         (Interned<String>, Interned<str>, Interned<String>), BTreeMap<u8, Interned<Leaf>>, Vec<Option<Interned<[u32]>>>,
